@@ -88,6 +88,13 @@ CLAIMED["C08"] = {
   "technique": "machine-checked proof in Lean 4 (real-number reading of the interpolation, induction over the grid list) + model/implementation correspondence check + reference-interpolation and first-hit oracles",
 }
 
+CLAIMED["C15"] = {
+  "text": "Lean 4 theorems (Geodesy/Props/C15.lean) over the model of the Gravsoft reader (bytes -> UTF-8 -> lines/comments/tokens -> numbers -> header/bands check -> normalisation -> BaseGrid::plain) and of the NTv2 reader (magic, byte order, record offsets, node count check, node reversal, sub-grid loop): for ANY bytes whatsoever, a grid the decoder accepts satisfies the invariant Inv (>= 2 rows and columns, >= 1 band, node table covering rows*cols*bands) (plain_ok_inv, gravsoft_ok_inv, gravsoftBytes_ok_inv, subgrid_ok, decode_ok); under Inv the cell used for ANY query point (NaN and infinities included: they only enter through clamped integer conversions) lies in the grid and all four corner indices of every band read lie inside the node table (cell_in_range, at_indices_in_bounds); every byte range the NTv2 reader touches lies inside the buffer (header_reads_in_bounds, node_reads_in_bounds, readSubgrids_guard, decode_guard) and what it stores is at most 1/8 of the file length per sub-grid (decode_ok: no allocation from an untrusted count); a number written in either byte order at any position is read back as written (reads_what_was_written, byte_order_detected), node records land reversed with (lon, lat) band order (node_order), an accepted Gravsoft file has used all and only its numbers, <= 3 bands (gravsoft_uses_all_values), ASCII bytes are their own text (utf8_ascii). Tied to /repo by a correspondence run of model and implementation on the SAME bytes, exact error class or values to 1e-9: well-formed Gravsoft (number formats, comments, split headers) and NTv2 files (both byte orders, shuffled sub-grid trees), the shipped files intact, at every truncation length (thorough) and under every single-bit flip of their headers (thorough), noise/delete/insert/duplicate/fill/swap corruptions, and consistently damaged files (single row/column with matching counts, zero/negative/NaN/huge increments, reversed extents, odd counts, duplicate/NONE/non-UTF-8/Unicode names, cyclic parents); and by safety oracles on the implementation: decode + queries at ordinary and extreme points at several margins + gridshift/deformation/deflection both ways under catch_unwind, a per-case timeout and a counting allocator (peak <= 64 x file size + 1 MiB), the large shipped files damaged in place, and the shipped .gsa ASCII twins compared node by node with the decoded .gsb.",
+  "design_ref": "DESIGN.md section 7, C15",
+  "note": "Partial: memory safety of the compiled code is argued through the model (index and slice bounds proved there; Rust's own bounds checks turn a violation into the panic the oracle looks for); f32/f64 rounding and text-to-number conversion are validated by the correspondence, not proved; the one assumed fact about `as usize` is the class UsizeLaw (proved for the reals).",
+  "technique": "machine-checked proof in Lean 4 (decoder invariant for arbitrary bytes, index and slice bounds, byte-order round trip) + model/implementation correspondence on damaged files + safety/allocation oracles",
+}
+
 ALL = ["C%02d" % i for i in range(1, 21)]
 
 def main():
